@@ -495,6 +495,10 @@ def main(ctx: Ctx) -> int:
             except Exception as e:   # noqa
                 ctx.notes.append(f"bundled network {label} could not be read: {type(e).__name__}")
                 continue
+            if len(bnet.reaction_list) > 400:
+                # RATE12 (6173 reactions): one trace of that size exhausts TLC's heap; its statements are still covered by C10 / C17
+                ctx.notes.append(f"bundled network {label} ({len(bnet.reaction_list)} reactions) is too large for trace validation and is skipped")
+                continue
             desc = {"reactions": [([x.name for x in rr.reactants], [x.name for x in rr.products]) for rr in bnet.reaction_list], "required": [],
                     "origin": f"bundled {label}"}
             prebuilt[len(descs)] = bnet
